@@ -27,6 +27,23 @@ Pm(g, a, v, parent, props, deps, mgmt, profiles, gdecl, vdecl) ==
   [g |-> g, a |-> a, v |-> v, parent |-> parent, props |-> props, deps |-> deps, mgmt |-> mgmt, profiles |-> profiles, gdecl |-> gdecl, vdecl |-> vdecl]
 Bom == << Pm("b", "bom", "1.0", 0, <<P("a", <<L("4.4")>>)>>, <<>>,
              <<Dep("g", "z", <<L("8.0")>>, "", "", "", FALSE, <<>>), Dep("g", "x", <<R("a")>>, "", "", "", FALSE, <<>>), Dep("g", "w", <<R("project.version")>>, "", "", "", FALSE, <<>>)>>, <<>>, "b", "1.0") >>
+\* nested imports: the project imports BOMs na and nb (either order); na may import nc, nc may import nd; nb, nc (and
+\* optionally na itself, and nd) manage the same keys with different versions, so the ORDER in which a BOM's own imports
+\* are expanded relative to the importer's remaining imports decides the managed version
+Imp(a) == Dep("n", a, <<L("1.0")>>, "pom", "", "import", FALSE, <<>>)
+NBom(a, mgmt) == << Pm("n", a, "1.0", 0, <<>>, <<>>, mgmt, <<>>, "n", "1.0") >>
+NestedBoms(aImpC, aOwn, cImpD, cFirst) ==
+  << NBom("na", (IF aOwn THEN <<Dep("g", "x", <<L("3.0")>>, "", "", "", FALSE, <<>>)>> ELSE <<>>) \o (IF aImpC THEN <<Imp("nc")>> ELSE <<>>)
+                 \o <<Dep("g", "k", <<L("3.1")>>, "", "", "", FALSE, <<>>)>>),
+     NBom("nb", <<Dep("g", "x", <<L("2.0")>>, "", "", "runtime", FALSE, <<>>), Dep("g", "z", <<L("2.1")>>, "", "", "", FALSE, <<>>), Dep("g", "w", <<L("2.2")>>, "", "", "", FALSE, <<>>)>>),
+     NBom("nc", (IF cImpD /\ cFirst THEN <<Imp("nd")>> ELSE <<>>) \o <<Dep("g", "x", <<L("1.0")>>, "", "", "", FALSE, <<"e:e">>), Dep("g", "z", <<L("1.1")>>, "", "", "", FALSE, <<>>)>>
+                 \o (IF cImpD /\ ~cFirst THEN <<Imp("nd")>> ELSE <<>>)),
+     NBom("nd", <<Dep("g", "w", <<L("4.0")>>, "", "", "", FALSE, <<>>), Dep("g", "z", <<L("4.1")>>, "", "", "", FALSE, <<>>)>>) >>
+NestedLin(abOrder, ownZ) ==
+  << Pm("g", "proj", "5.0", 0, <<>>,
+        <<Dep("g", "x", <<>>, "", "", "", FALSE, <<>>), Dep("g", "z", <<>>, "", "", "", FALSE, <<>>), Dep("g", "w", <<>>, "", "", "", FALSE, <<>>), Dep("g", "k", <<>>, "", "", "", FALSE, <<>>)>>,
+        (IF ownZ THEN <<Dep("g", "z", <<L("5.5")>>, "", "", "", FALSE, <<>>)>> ELSE <<>>) \o (IF abOrder THEN <<Imp("na"), Imp("nb")>> ELSE <<Imp("nb"), Imp("na")>>),
+        <<>>, "g", "5.0") >>
 VARIABLES kind, item
 Init == kind = "start" /\ item = <<>>
 \* one lineage of the family (project, optional parent, optional grandparent)
@@ -52,11 +69,15 @@ QuerySeq == TLCEval(SetToSeq(ValForms))
 Next == kind = "start" /\ \/ (kind' = "lineage" /\ \E np \in {0, 1, 2}, cp \in CPs, cd \in CDs, cm \in MgmtLists, prof \in {0, 1, 2}, act \in ActSet :
                                    \E pp \in (IF np = 0 THEN {<<>>} ELSE PPs), pd \in (IF np = 0 THEN {<<>>} ELSE ParentDeps), pm \in (IF np = 0 THEN {<<>>} ELSE PMs) :
                                       (np = 0 => prof # 2) /\ item' = Lin(np, FALSE, cp, pp, cd, pd, cm, pm, prof, act))
+                           \/ (kind' = "nested" /\ \E abOrder \in BOOLEAN, ownZ \in BOOLEAN, aImpC \in BOOLEAN, aOwn \in BOOLEAN, cImpD \in BOOLEAN, cFirst \in BOOLEAN :
+                                   item' = <<NestedLin(abOrder, ownZ), NestedBoms(aImpC, aOwn, cImpD, cFirst)>>)
                            \/ (kind' = "table" /\ \E va \in ValForms, vb \in ValForms, vc \in ValForms : item' = <<va, vb, vc>>)
 InDom(lin) == ~HasCycle(lin)
 Emit == /\ (kind = "lineage" => CSVWrite("%1$s", <<ToJson([kind |-> "lineage", lineage |-> item, boms |-> <<Bom>>, indomain |-> InDom(item),
                      deps |-> IF InDom(item) THEN OutSeq(EffDeps(item, <<Bom>>)) ELSE <<>>,
                      mgmt |-> IF InDom(item) THEN OutSeq(EffMgmt(item, <<Bom>>)) ELSE <<>>])>>, OutFile))
+        /\ (kind = "nested" => CSVWrite("%1$s", <<ToJson([kind |-> "lineage", lineage |-> item[1], boms |-> item[2], indomain |-> TRUE,
+                     deps |-> OutSeq(EffDeps(item[1], item[2])), mgmt |-> OutSeq(EffMgmt(item[1], item[2]))])>>, OutFile))
         /\ (kind = "table" => CSVWrite("%1$s", <<ToJson([kind |-> "table", table |-> [a |-> item[1], b |-> item[2], c |-> item[3]],
                      queries |-> [q \in 1..7 |-> LET t == QuerySeq[q]
                                                      d == [n \in {"a", "b", "c"} |-> IF n = "a" THEN item[1] ELSE IF n = "b" THEN item[2] ELSE item[3]]
